@@ -103,7 +103,7 @@ Qed.
 End SS.
 
 Theorem grammar_tokens_are_spec_pieces xpath a fls input :
-  ok_a xpath a = true -> existsb (N.eqb 59) fls = false -> (N.of_nat (length input) < umax)%N ->
+  ok_a xpath a = true -> existsb (N.eqb 59) fls = false -> (N.of_nat (length input) < umax)%N -> valid_in input ->
   match spec_flags xpath fls with
   | Valid sf =>
       s_q sf = false -> s_x sf = false ->
@@ -117,13 +117,13 @@ Theorem grammar_tokens_are_spec_pieces xpath a fls input :
   | _ => True
   end.
 Proof.
-  intros Hok Hsep Hfit. pose proof (parse_flags_spec xpath fls Hsep) as PF. unfold regex_new.
+  intros Hok Hsep Hfit Hval. pose proof (parse_flags_spec xpath fls Hsep) as PF. unfold regex_new.
   destruct (parse_flags xpath fls) as [fl|e| |] eqn:Efl; destruct (spec_flags xpath fls) as [sf| |] eqn:Esf;
     try contradiction; try exact I; try (destruct e; contradiction).
   destruct PF as [(A1 & A2 & A3 & A4 & A5) Hx]. intros Hsq Hsx. cbn [rbind].
   set (pat := show_a a).
   destruct (parse_expr_grammar pat xpath (f_case fl) (f_single fl) [] (f_multi fl) 0
-              (eq_refl : (N.of_nat (length (@nil N)) < umax)%N) a Hok eq_refl)
+              (eq_refl : (N.of_nat (length (@nil N)) < umax)%N) valid_nil a Hok eq_refl)
     as (top & st' & Eparse & Hi & Hb & _ & _ & Hfr & _ & Hps).
   assert (Ecomp : compile true fl pat
                   = Ok (mk_program_unopt pat top (parens st') (f_case fl) (f_multi fl) false false)).
@@ -133,29 +133,29 @@ Proof.
   set (prog := mk_program_unopt pat top (parens st') (f_case fl) (f_multi fl) false false).
   assert (Hun : p_hasbol prog = false /\ p_minlen prog = 0%N /\ p_prefix prog = None /\ p_icc prog = None /\ p_pre prog = [])
     by (repeat split; reflexivity).
-  assert (Facts : forall inp, (N.of_nat (length inp) < umax)%N -> simple inp (f_case fl) (f_multi fl) false (parens st') top
-                   /\ (forall p, p <= length inp -> Rop inp (f_case fl) (f_multi fl) top p = DaO inp (f_case fl) (f_multi fl) a p)).
-  { intros inp Hfi. destruct (parse_expr_grammar pat xpath (f_case fl) (f_single fl) inp (f_multi fl) (parens st') Hfi a Hok eq_refl)
+  assert (Facts : forall inp, (N.of_nat (length inp) < umax)%N -> valid_in inp -> simple inp (f_case fl) (f_multi fl) false (parens st') top
+                   /\ (forall p, p <= length inp -> Rop inp (f_case fl) (f_multi fl) top p = DaO inp (f_case fl) (f_multi fl) (f_single fl) a p)).
+  { intros inp Hfi Hvi. destruct (parse_expr_grammar pat xpath (f_case fl) (f_single fl) inp (f_multi fl) (parens st') Hfi Hvi a Hok eq_refl)
       as (top' & st'' & Eparse' & _ & _ & G & _ & _ & S0 & _).
     rewrite Eparse in Eparse'. injection Eparse' as <- <-. split; [exact G|exact S0]. }
-  pose proof (fragment_no_panic_no_out prog [] (proj1 (Facts [] eq_refl)) Hun 0 st0 (le_n 0) eq_refl) as NP0.
-  destruct (spec_parse_grammar xpath input sf Hfit a Hok) as (r & Espec & _ & Sr).
+  pose proof (fragment_no_panic_no_out prog [] (proj1 (Facts [] eq_refl valid_nil)) Hun 0 st0 (le_n 0) eq_refl) as NP0.
+  destruct (spec_parse_grammar xpath input sf Hfit Hval a Hok) as (r & Espec & _ & Sr).
   destruct (matches prog [] 0 st0) as [s0|s0| |k0] eqn:E0; try contradiction; cbn [mres_bool rbind];
     (eexists; exists r; split; [reflexivity|]; split; [exact Espec|]); cbn [r_nullable r_prog]; intros Hn; [discriminate|].
   assert (Hnn : forall s', matches prog [] 0 st0 <> MTrue s') by (intros s' Es; rewrite E0 in Es; discriminate).
   assert (HE : forall m, m <= length input ->
             map fst (R sf input r m []) = Rop input (p_case prog) (p_multi prog) (p_op prog) m).
   { intros m Hm. cbn [p_case p_multi p_op prog mk_program_unopt].
-    rewrite (proj2 (Facts input Hfit) m Hm), A1, A2. exact (Sr m [] Hm). }
-  pose proof (scan_spec_spans prog input sf r (proj1 (Facts input Hfit)) Hfr Hun (proj1 (Facts [] eq_refl)) Hnn HE) as SS.
+    rewrite (proj2 (Facts input Hfit Hval) m Hm), A1, A2, A3. exact (Sr m [] Hm). }
+  pose proof (scan_spec_spans prog input sf r (proj1 (Facts input Hfit Hval)) Hfr Hun (proj1 (Facts [] eq_refl valid_nil)) Hnn HE) as SS.
   split; [exact SS|]. split.
-  { rewrite (fragment_tokenize prog input (proj1 (Facts input Hfit)) Hfr Hun (proj1 (Facts [] eq_refl)) Hnn
+  { rewrite (fragment_tokenize prog input (proj1 (Facts input Hfit Hval)) Hfr Hun (proj1 (Facts [] eq_refl valid_nil)) Hnn
                (S (length input)) 0 st0 eq_refl ltac:(lia) ltac:(lia)).
     replace (S (S (length input))) with (length input + 2) by lia. rewrite SS. reflexivity. }
   intros repl Hpl. unfold replace_all, replace, replace_gen. cbn [r_nullable r_prog p_literal p_maxparens prog mk_program_unopt].
   destruct (parens st') as [|maxc] eqn:Ep; [lia|].
   rewrite (replace_plain (matches prog input) maxc input repl minv
-             (fragment_good_step prog input (proj1 (Facts input Hfit)) Hfr Hun (proj1 (Facts [] eq_refl)) Hnn) Hpl st0 eq_refl).
+             (fragment_good_step prog input (proj1 (Facts input Hfit Hval)) Hfr Hun (proj1 (Facts [] eq_refl valid_nil)) Hnn) Hpl st0 eq_refl).
   rewrite SS. reflexivity.
 Qed.
 
@@ -163,7 +163,7 @@ Qed.
    answers Ok (or InvalidFlags for a flag string the specification rejects), is_match answers Ok, and for
    a regex not flagged nullable tokenize and replace_all with a plain replacement answer Ok *)
 Theorem grammar_total xpath a fls input :
-  ok_a xpath a = true -> existsb (N.eqb 59) fls = false -> (N.of_nat (length input) < umax)%N ->
+  ok_a xpath a = true -> existsb (N.eqb 59) fls = false -> (N.of_nat (length input) < umax)%N -> valid_in input ->
   match spec_flags xpath fls with
   | Valid sf =>
       s_q sf = false -> s_x sf = false ->
@@ -175,9 +175,9 @@ Theorem grammar_total xpath a fls input :
   | Unspecified => True
   end.
 Proof.
-  intros Hok Hsep Hfit.
-  pose proof (grammar_end_to_end xpath a fls input Hok Hsep Hfit) as G1.
-  pose proof (grammar_tokens_are_spec_pieces xpath a fls input Hok Hsep Hfit) as G2.
+  intros Hok Hsep Hfit Hval.
+  pose proof (grammar_end_to_end xpath a fls input Hok Hsep Hfit Hval) as G1.
+  pose proof (grammar_tokens_are_spec_pieces xpath a fls input Hok Hsep Hfit Hval) as G2.
   destruct (spec_flags xpath fls) as [sf| |]; auto.
   intros Hq Hx. destruct (G1 Hq Hx) as (re & r & E & _ & Em). destruct (G2 Hq Hx) as (re' & r' & E' & _ & T).
   rewrite E in E'. injection E' as <-.
